@@ -104,6 +104,8 @@ class Ctx:
         return f
 
     def floor(self, rule: str, n: int, what: str = "") -> None:
+        if getattr(self, "focus", None):
+            return  # (self-test of one rule: the other rules' obligations are not evaluated)
         got = self.instances.get(rule, 0)
         if got < n:
             raise AnalysisError(f"instance floor not met for rule {rule}: matched {got} < {n} {what}".strip())
@@ -111,6 +113,25 @@ class Ctx:
     def require(self, cond: bool, msg: str) -> None:
         if not cond:
             raise AnalysisError(msg)
+
+    def only(self, rule_prefix: str):
+        """``with ctx.only("T5.bspline"):`` — evaluate only the table obligations of the given rule (prefix) inside the block
+        (used when a property shares one rule of a larger table with another property)."""
+        ctx = self
+
+        class _Only:
+            def __enter__(self_):
+                self_.prev = getattr(ctx, "focus", None)
+                if self_.prev is None or rule_prefix.startswith(self_.prev):
+                    ctx.focus = rule_prefix
+                elif not self_.prev.startswith(rule_prefix):
+                    ctx.focus = "\x00none"  # disjoint from the self-test focus: nothing to evaluate here
+                return self_
+
+            def __exit__(self_, *a):
+                ctx.focus = self_.prev
+                return False
+        return _Only()
 
     # -------------------------------------------------------------- parallel sections
     def parallel(self):
